@@ -315,6 +315,6 @@ func init() {
 			fmt.Printf("replay: C08/codec-%s/%s\n  %s\n", clause, class, what)
 			return 1
 		}
-		return c08ReplayE2E(d.Job)
+		return c08ReplayE2E(doc)
 	}
 }
